@@ -89,11 +89,6 @@ theorem C06_order_needs_tie_break :
 
 /-! ### every unsound switch has a replayable witness -/
 
-def aliasedVariant : Variant := ⟨true, true, false, true⟩
-def noResetVariant : Variant := ⟨false, false, false, true⟩
-def sharedVariant : Variant := ⟨false, true, true, true⟩
-def tiesVariant : Variant := ⟨false, true, false, false⟩
-
 /-- **C06_witness_alias.**  `define_symbols` returns the memoised dict (tree before b218b43):
 [stable ids; formulate; default; formulate; stable ids again; formulate] — the first and the third
 model belong to the same configuration and differ (the ζ definitions lost `m_0`, `m_1`, … after the
